@@ -1,6 +1,6 @@
 """Property registry: theorem modules, generators, projections and verdict rules per property."""
 import re
-from . import gen_pure
+from . import gen_pure, gen_img
 
 
 def split_model(line):
@@ -38,7 +38,15 @@ class Prop:
     technique = "Lean 4 theorem over an executable model + differential correspondence with the Rust code"
 
     def project(self, op, ans):
-        """what of an answer this property constrains (default: everything)"""
+        """what of an answer this property constrains (default: everything; panic / crash / hang
+        are compared by class, the message and site are diagnostics only)"""
+        k = klass(ans)
+        if k == "panic":
+            return "panic"
+        if k in ("crash", "ub"):
+            return "crash"
+        if k in ("timeout", "diverge"):
+            return "diverge"
         return ans
 
     def judge(self, op, impl, model, spec):
@@ -93,10 +101,35 @@ class C14(Prop):
         if op.startswith("relocs_raw"):
             if "foreach_same=0" in impl or "fold_same=0" in impl:
                 return "block iterator and for_each/fold disagree: %s" % impl[:300]
+        if op.startswith("relocs_build") and spec_field(spec, "hyp") == "1":
+            m = re.search(r"flat=(\[\S*\])", impl)
+            want = spec_field(spec, "input")
+            if not m or m.group(1) != want:
+                return "parsing the built directory gives %s, not the input pairs %s" % (m.group(1)[:300] if m else impl[:200], want[:300])
         return None
 
     def nontrivial(self, op, impl):
         return impl.startswith("ok") and "blocks=[]" not in impl and impl != "ok -"
 
 
-REGISTRY = {p.pid: p for p in [C14(), C20()]}
+class C04(Prop):
+    pid = "C04"
+    title = "file views resolve RVAs through the section table"
+    thm_modules = ["PeliteModel.Thm.C04"]
+    gens = [gen_img.gen_c04]
+
+    def nontrivial(self, op, impl):
+        return impl.startswith("ok ")
+
+
+class C07(Prop):
+    pid = "C07"
+    title = "headers"
+    thm_modules = ["PeliteModel.Thm.C07", "PeliteModel.Thm.C07Checksum"]
+    gens = [gen_img.gen_c07_corpus, gen_img.gen_c07]
+
+    def nontrivial(self, op, impl):
+        return impl.startswith("ok ")
+
+
+REGISTRY = {p.pid: p for p in [C04(), C07(), C14(), C20()]}
